@@ -55,6 +55,7 @@ theorem step_list (xs : List Val) (st : LStep) (hg : Good xs) (ha : admissibleL 
   | contains v => rfl
   | index v => rfl
   | count v => rfl
+  | indexIn v a b => rfl
   | getBad => rfl
   | setBad => rfl
   | delBad => rfl
@@ -262,6 +263,7 @@ theorem specL_good (xs : List Val) (st : LStep) (hg : Good xs) (ha : admissibleL
   | contains v => exact hg
   | index v => exact hg
   | count v => exact hg
+  | indexIn v a b => exact hg
   | getBad => exact hg
   | setBad => exact hg
   | delBad => exact hg
